@@ -38,7 +38,8 @@ type c17Spec struct {
 	Steps    []string `json:"steps"` // log of what happened, filled while running
 }
 
-var c17Names = []string{"a", "a-b", "ab", "a/b", "b", "B", "tool-10", "tool-2", "tool-1", "z", "é", "日本", "x.y", "x_y", "m1", "m2", "m3", "m4", "m5", "m6", "m7", "m8", "m9", "m10", "m11", "m12", "k"}
+var c17Names = []string{"a", "a-b", "ab", "a/b", "b", "B", "tool-10", "tool-2", "tool-1", "z", "é", "日本", "x.y", "x_y", "m1", "m2", "m3", "m4", "m5", "m6", "m7", "m8", "m9", "m10", "m11", "m12", "k", "Alpha", "alpha", "Bravo", "bravo", "Zulu", "golf", "Golf",
+	"long-" + strings.Repeat("n", 170), "long-" + strings.Repeat("n", 169) + "m", "very-long-" + strings.Repeat("q", 400)}
 
 func TestVerifC17(t *testing.T) {
 	cfg := vh.Config{
@@ -91,18 +92,26 @@ func runC17(c *vh.Case) {
 		}
 		registered[idOf(name)] = true
 	}
-	remove := func(name string) {
+	remove := func(name string, extra ...string) {
+		// extra: further names in the same call (unknown ones among them, in any position)
+		all := append([]string{name}, extra...)
+		ids := make([]string, len(all))
+		for i, n := range all {
+			ids[i] = idOf(n)
+		}
 		switch spec.Kind {
 		case "tools":
-			server.RemoveTools(name)
+			server.RemoveTools(all...)
 		case "prompts":
-			server.RemovePrompts(name)
+			server.RemovePrompts(all...)
 		case "resources":
-			server.RemoveResources(idOf(name))
+			server.RemoveResources(ids...)
 		case "templates":
-			server.RemoveResourceTemplates(idOf(name))
+			server.RemoveResourceTemplates(ids...)
 		}
-		delete(registered, idOf(name))
+		for _, id := range ids {
+			delete(registered, id)
+		}
 	}
 	names := append([]string(nil), c17Names...)
 	if spec.Kind == "tools" || spec.Kind == "prompts" {
@@ -330,10 +339,19 @@ func runC17(c *vh.Case) {
 					}
 				}
 				v := have[r.Intn(len(have))]
-				remove(v)
+				switch r.Intn(4) {
+				case 0:
+					remove(v, "no-such-item")
+					spec.Steps = append(spec.Steps, "remove "+v+"+unknown")
+				case 1:
+					remove("no-such-item", v, "neither-this")
+					spec.Steps = append(spec.Steps, "remove unknown+"+v+"+unknown")
+				default:
+					remove(v)
+					spec.Steps = append(spec.Steps, "remove "+v)
+				}
 				removedEver[idOf(v)] = true
 				pool = append(pool, v)
-				spec.Steps = append(spec.Steps, "remove "+v)
 			default:
 				var have []string
 				for _, n := range names {
